@@ -92,7 +92,7 @@ TIERS = {
                       num=40, depth=6, workers=16, sample=5000),
         negative=dict(CellNames='{"narrow"}', PatNames='{"P2far"}', MaxCopies=1, MaxDecoys=0, MaxAtoms=9,
                       Anchors="AnchQ", Decoys="DecoyQ", DecoyRots="RotsQ", Neg="TRUE", Inv="NarrowBreaks"),
-        variants=6),
+        variants=4),
 }
 
 
